@@ -4,6 +4,7 @@ package regal.rules.bugs["time-now-ns-twice"]
 
 import data.regal.ast
 import data.regal.result
+import data.regal.util
 
 report contains violation if {
 	# note: calls per _rule_index_, which is just what we want
@@ -16,7 +17,14 @@ report contains violation if {
 
 	count(time_now_calls) > 1
 
-	some repeated in array.slice(time_now_calls, 1, count(time_now_calls))
+	# calls is a set, and location strings ("row:col:...") don't sort numerically — order the calls
+	# by position so that the first call is the one left out, whatever the number of digits in its row
+	ordered := sort([[loc.row, loc.col, call] |
+		some call in time_now_calls
+		loc := util.to_location_object(call.location)
+	])
+
+	some [_, _, repeated] in array.slice(ordered, 1, count(ordered))
 
 	violation := result.fail(rego.metadata.chain(), result.location(repeated))
 }
